@@ -12,7 +12,7 @@ from .. import sp
 ID = "C02"
 META = {
     "technique": "runtime monitoring: differential monitor of Splitter.split / parse_string(parse_stack=[]) against an independent recursive-descent recogniser and constructive generator ground truth",
-    "level_text": "All token sequences up to the stated length that the reference recogniser accepts, plus seeded grammar derivations with constructive ground truth, are parsed by the real splitter and compared block by block (kind, lower-cased type, key, field keys/order/values, comment/preamble/string content).",
+    "level_text": "All token sequences up to the stated length that the reference recogniser accepts, plus seeded grammar derivations with constructive ground truth, are parsed by the real splitter and compared block by block (kind, lower-cased type, key, field keys/order/values, comment/preamble/string content). A runs family repeats one token 1...4097 (thorough 65537) times in front of an escaped or real delimiter in every construct.",
     "level_note": "trusts the reference recogniser (cross-checked against the generator on every derivation; a disagreement makes the run inconclusive) and the dialect reading of DESIGN.md 3.1",
 }
 RULE = ("cases = (a) every token sequence up to length L over the splitter alphabet that the recogniser accepts and that is collision-free, "
